@@ -402,6 +402,9 @@ func (e *Env) loadVia(p Value, t types.Type) Value {
 	return nil
 }
 
+// renamedFields: notes for the evidence (a recorded field name bound to the field now at its position).
+var renamedFields = map[string]bool{}
+
 func (e *Env) selectField(b tv, name string) tv {
 	if b.T == nil {
 		evalFail("field %s of untyped value", name)
@@ -409,6 +412,10 @@ func (e *Env) selectField(b tv, name string) tv {
 	obj, path, _ := types.LookupFieldOrMethod(b.T, true, e.pkgOfType(b.T), name)
 	fv, ok := obj.(*types.Var)
 	if !ok || !fv.IsField() {
+		if alias := fieldAlias(b.T, name); alias != "" {
+			renamedFields[name+" is now "+alias+" in "+types.TypeString(b.T, nil)] = true
+			return e.selectField(b, alias)
+		}
 		evalFail("no field %s in %s", name, b.T)
 	}
 	cur, curT := b.V, b.T
